@@ -265,6 +265,15 @@ func runC01(cfg config) {
 					e, src := e, gsrc[i]
 					record("evaluate", fmt.Sprintf("Evaluate(%q) on a hollowed %s", src, name), func() { verifhook.Evaluate(e, []proto.Message{res}) })
 				}
+				// the same walk with the Permissive option (wrappers are not unwrapped: other code paths)
+				for _, src := range []string{name + ".descendants().count()", name + ".contained.id", name + ".entry.resource.id", name + ".entry.resource.descendants().count()", name + ".children().children().id", name + ".descendants().value", name + ".descendants().select($this = $this)"} {
+					src := src
+					record("evaluate", fmt.Sprintf("Compile(%q, Permissive)+Evaluate on a hollowed %s", src, name), func() {
+						if e, err := fhirpath.Compile(src, compopts.Permissive()); err == nil {
+							verifhook.Evaluate(e, []proto.Message{res})
+						}
+					})
+				}
 				for _, src := range []string{name + ".descendants().select($this = $this)", name + ".children().children()", name + ".descendants().toString()", name + ".contained.descendants()", name + ".entry.resource.id", name + ".descendants().where($this = 'male')", name + ".descendants().select($this ~ 'x')", name + ".descendants().select($this in ('a' | 'b'))", name + ".descendants().distinct()"} {
 					src := src
 					record("evaluate", fmt.Sprintf("Compile+Evaluate(%q) on a hollowed %s", src, name), func() {
@@ -274,6 +283,18 @@ func runC01(cfg config) {
 					})
 				}
 			}
+		}
+	}
+	// ---- decimal elements as FHIR allows them: exponents, small and absurd --------------------------------------------------
+	for _, dv := range []string{"1e2", "1E-2", "-1.5e3", "1e30", "1e-30", "1e308", "1e4096", "1e4097", "1e100000", "1e1000000", "1e999999999", "1e-999999999", "-9e999999999", "1e2147483647", "1e2147483648", "1e99999999999999999999", "0e999999999", "1.0e+5", "1e", "e5", ".5", "5.", "+5", "0x10", "NaN", "Infinity", ""} {
+		el := &dtpb.Decimal{Value: dv}
+		for _, src := range []string{"%d", "%d + 1", "%d * 2.5", "%d / 3.0", "%d > 1", "%d = %d", "%d.round(2)", "%d.toString()", "%d.floor()", "%d.abs()", "%d.sqrt()", "%d.toInteger()", "%d.toQuantity()", "%d.convertsToDecimal()", "-%d", "%d.toString().toDecimal()", "%d mod 7", "%d div 3", "(%d | %d).distinct()", "%d ~ 1.0"} {
+			src := src
+			record("evaluate", fmt.Sprintf("Evaluate(%q) with %%d a decimal element %q", src, dv), func() {
+				if e, err := fhirpath.Compile(src, compopts.WithExperimentalFuncs()); err == nil {
+					verifhook.Evaluate(e, []proto.Message{patients[0]}, evalopts.EnvVariable("d", el))
+				}
+			})
 		}
 	}
 	// ---- state that builds up over calls: many distinct regular expressions, many distinct expressions ------------------
@@ -289,7 +310,24 @@ func runC01(cfg config) {
 	values := []proto.Message{nil, &dtpb.String{Value: "x"}, &dtpb.HumanName{Family: &dtpb.String{Value: "F"}}, &dtpb.Integer{Value: -1}, &dtpb.Code{Value: "male"}, &dtpb.Code{Value: "Not A Code"},
 		&dtpb.Boolean{Value: true}, &dtpb.Reference{}, &dtpb.Extension{}, basePatient(),
 		&opb.Organization_Contact{Purpose: &dtpb.CodeableConcept{Text: &dtpb.String{Value: "p"}}}, &rppb.RelatedPerson_Communication{Preferred: &dtpb.Boolean{Value: true}}}
-	names := []string{"name", "given", "family", "gender", "active", "deceased", "extension", "id", "contained", "nonexistent", "given_name", "", "Name", "valueString", "value", "reference"}
+	names := []string{"name", "given", "family", "gender", "active", "deceased", "extension", "id", "contained", "nonexistent", "given_name", "", "Name", "valueString", "value", "reference", "valueUs", "timezone", "precision", "typeUrl"}
+	{ // the Go-native fields of primitives (value, valueUs, timezone, precision), on elements holding zero and non-zero values
+		zp := basePatient()
+		zp.Active = &dtpb.Boolean{Value: false}
+		zp.Name[0].Family = &dtpb.String{}
+		zp.MultipleBirth = &ppb.Patient_MultipleBirthX{Choice: &ppb.Patient_MultipleBirthX_Integer{Integer: &dtpb.Integer{}}}
+		zp.BirthDate = &dtpb.Date{}
+		zp.Gender = &ppb.Patient_GenderCode{}
+		for _, path := range []string{"Patient.active", "Patient.name[0].family", "Patient.multipleBirth", "Patient.birthDate", "Patient.gender", "Patient.name[1].family", "Patient.deceased", "Patient.id"} {
+			for _, nm := range []string{"value", "valueUs", "timezone", "precision", "id", "extension"} {
+				for _, v := range []proto.Message{&dtpb.Boolean{Value: true}, &dtpb.String{Value: "x"}, &dtpb.Integer{Value: 1}, &dtpb.Extension{}} {
+					path, nm, v := path, nm, v
+					res := proto.Clone(zp)
+					record("patch", fmt.Sprintf("patch.Add(%q, %q, %T) on zero-valued primitives", path, nm, v), func() { verifhook.PatchAdd(res, path, nm, v) })
+				}
+			}
+		}
+	}
 	for k := 0; k < 600*scale; k++ {
 		path := pick(r, srcs)
 		if r.intn(3) == 0 {
